@@ -356,6 +356,83 @@ def bounded(fails, budget: int):
     return f
 
 
+def shared_tables(a, b):
+    """names of attributes of two handler instances that are the SAME mutable container object (dict / list / set): two
+    handlers in one process must not share any table"""
+    out = []
+    for name in sorted(set(dir(a)) & set(dir(b))):
+        if name.startswith("__"):
+            continue
+        try:
+            va, vb = getattr(a, name), getattr(b, name)
+        except Exception:  # noqa: BLE001
+            continue
+        if isinstance(va, (dict, list, set)) and va is vb:
+            out.append(name)
+    return out
+
+
+class Shadow:
+    """A second REAL equipment handler alive in the same process, with DIFFERENT tables under the SAME ids; a history runs on
+    it between the steps of the handler under test (isolation: nothing of it may show up there)."""
+
+    def __init__(self):
+        self.eq = Equipment()
+        h = self.eq.h
+        h.status_variables[30] = secsgem.gem.StatusVariable(30, "shadow-sv30", "x", V.U4)
+        h.status_variables[30].value = 4242
+        h.status_variables[77] = secsgem.gem.StatusVariable(77, "shadow-sv77", "x", V.U4)
+        h.data_values[31] = secsgem.gem.DataValue(31, "shadow-dv31", V.String)
+        h.data_values[31].value = "shadow"
+        h.equipment_constants[30] = secsgem.gem.EquipmentConstant(30, "shadow-ec30", 0, 9, 9, "x", V.U4)
+        h.equipment_constants[78] = secsgem.gem.EquipmentConstant(78, "shadow-ec78", 0, 9, 1, "x", V.U4)
+        h.alarms[7] = secsgem.gem.Alarm(7, "shadow-al7", "shadow seven", 60, 50, 50)
+        h.alarms[79] = secsgem.gem.Alarm(79, "shadow-al79", "shadow", 61, 50, 50)
+        h.collection_events[50] = secsgem.gem.CollectionEvent(50, "shadow-ce50", [])
+        h.collection_events[80] = secsgem.gem.CollectionEvent(80, "shadow-ce80", [])
+        h.remote_commands["SHADOW"] = secsgem.gem.RemoteCommand("SHADOW", "shadow", ["P"], 80)
+        self.k = 0
+
+    def step(self):
+        """one request / equipment-side change on the shadow handler (a fixed cycle)"""
+        eq, h = self.eq, self.eq.h
+        k, self.k = self.k, self.k + 1
+        c = k % 8
+        if c == 0:
+            eq.request(2, 33, {"DATAID": 1, "DATA": [{"RPTID": 1, "VID": [30]}, {"RPTID": 2, "VID": [77, 31]}]}, True)
+        elif c == 1:
+            eq.request(2, 35, {"DATAID": 1, "DATA": [{"CEID": 50, "RPTID": [2, 1]}, {"CEID": 80, "RPTID": [1]}]}, True)
+        elif c == 2:
+            eq.request(2, 37, {"CEED": True, "CEID": []}, True)
+        elif c == 3:
+            eq.request(5, 3, {"ALED": 128, "ALID": 7}, True)
+            eq.request(5, 3, {"ALED": 128, "ALID": 79}, True)
+        elif c == 4:
+            h.set_alarm(7)
+            h.set_alarm(79)
+        elif c == 5:
+            eq.request(2, 15, [{"ECID": 30, "ECV": V.U4(3)}, {"ECID": 2, "ECV": V.U1(0)}, {"ECID": 1, "ECV": V.U1(77)}], True)
+        elif c == 6:
+            h.status_variables[30].value = 4243 + k
+            h.trigger_collection_events([50])
+        else:
+            h.clear_alarm(7)
+            eq.request(2, 33, {"DATAID": 1, "DATA": []}, True)
+
+    def close(self):
+        self.eq.close()
+
+
+_SHADOW = []
+
+
+def shadow() -> Shadow:
+    """the one shadow handler of this harness process (created on first use, alive until the process ends)"""
+    if not _SHADOW:
+        _SHADOW.append(Shadow())
+    return _SHADOW[0]
+
+
 class RecordingThreads:
     """Stand-in for the `threading` name inside one secsgem module: threads are real, but recorded (so the harness can
     join them with a bound) and an exception escaping the target is kept instead of printed."""
